@@ -23,7 +23,8 @@ def setAt (l : List Bool) (i : Nat) : List Bool := l.set i true
 
 /-- Macro.preproc_replacement -/
 def preprocReplacement (m : Macro) : Except Err Macro :=
-  let rec go (fuel : Nat) (rest : List Tok) (res : List Tok) (m : Macro) : Except Err Macro :=
+  -- `prev`: text of the token before `tok` in the original replacement list ("" at the start)
+  let rec go (fuel : Nat) (rest : List Tok) (res : List Tok) (m : Macro) (prev : String) : Except Err Macro :=
     match fuel with
     | 0 => .ok { m with replacement := res }
     | fuel + 1 =>
@@ -36,25 +37,27 @@ def preprocReplacement (m : Macro) : Except Err Macro :=
           | some last =>
             let res0 := res.dropLast
             if (m.whichArg last.text).isSome then
-              go fuel rest' (res0 ++ [last, tok]) { m with hasStrcat := true }
+              go fuel rest' (res0 ++ [last, tok]) { m with hasStrcat := true } tok.text
             else
               match rest' with
               | [] => .error .index
               | nexttok :: rest'' =>
                 if (m.whichArg nexttok.text).isSome then
-                  go fuel rest'' (res0 ++ [last, tok, nexttok]) { m with hasStrcat := true }
+                  go fuel rest'' (res0 ++ [last, tok, nexttok]) { m with hasStrcat := true } nexttok.text
                 else
                   match tokenizeOne (last.text ++ nexttok.text).toList false with
                   | none => .error (.parse "Invalid concatenation")
-                  | some (t, _) => go fuel rest'' (res0 ++ [{ t with pw := last.pw }]) m
+                  | some (t, _) => go fuel rest'' (res0 ++ [{ t with pw := last.pw }]) m nexttok.text
         else if tok.text == "#" then
-          go fuel rest' (res ++ [tok]) (if m.args.isSome then { m with hasStrcat := true } else m)
+          go fuel rest' (res ++ [tok]) (if m.args.isSome then { m with hasStrcat := true } else m) tok.text
         else if tok.kind == .ident then
+          -- `__is_operand`: an operand of `#` / `##` is substituted unexpanded and does not mark its parameter
+          let isOperand := prev == "#" || prev == "##" || (rest'.head?.map (·.text)) == some "##"
           match m.whichArg tok.text with
-          | some i => go fuel rest' (res ++ [tok]) { m with needsExp := setAt m.needsExp i }
-          | none => go fuel rest' (res ++ [tok]) m
-        else go fuel rest' (res ++ [tok]) m
-  go (m.replacement.length + 1) m.replacement [] m
+          | some i => go fuel rest' (res ++ [tok]) (if isOperand then m else { m with needsExp := setAt m.needsExp i }) tok.text
+          | none => go fuel rest' (res ++ [tok]) m tok.text
+        else go fuel rest' (res ++ [tok]) m tok.text
+  go (m.replacement.length + 1) m.replacement [] m ""
 
 /-- make_macro(identifier, args, expansion) -/
 def makeMacro (name : String) (args : Option (List String)) (expansion : List Tok) : Except Err Macro :=
@@ -120,21 +123,20 @@ def Macro.replaceFn (m : Macro) (inputArgs : List Arg) : Except Err (List Tok) :
       for i in idxs do
         let a := inputArgs[i]!
         raw := raw ++ a.raw ++ [comma]
-        let e ← a.getExp
-        exp := exp ++ e ++ [comma]
+        exp := exp ++ a.exp.getD a.raw ++ [comma]     -- `input_args[idx][-1]`
       if np - 1 < inputArgs.length then
         match inputArgs.getLast? with
         | some a =>
           raw := raw ++ a.raw
-          let e ← a.getExp
-          exp := exp ++ e
+          exp := exp ++ a.exp.getD a.raw
         | none => pure ()
       pure (inputArgs.take (np - 1) ++ [⟨raw, some exp⟩])
     else pure inputArgs : Except Err (List Arg))
-  let argOf (t : String) : Option Nat := params.idxOf? t
+  -- `_parameter_index`: only an identifier names a parameter
+  let argOf (t : Tok) : Option Nat := if t.kind == .ident then params.idxOf? t.text else none
   -- handle # and ##
   let resTokens ← (if m.hasStrcat then
-      let rec go (fuel : Nat) (rest : List Tok) (res : List Tok) (lastCat : Bool) : Except Err (List Tok) :=
+      let rec go (fuel : Nat) (rest : List Tok) (res : List (Tok × Bool)) (lastCat : Bool) (pm : Bool) (pmw : Bool) : Except Err (List (Tok × Bool)) :=
         match fuel with
         | 0 => .ok res
         | fuel + 1 =>
@@ -142,47 +144,50 @@ def Macro.replaceFn (m : Macro) (inputArgs : List Arg) : Except Err (List Tok) :
           | [] => .ok res
           | tok :: rest' =>
             if tok.text == "##" then
-              match res.getLast? with
-              | none => .error .index
-              | some last0 =>
-                let res0 := res.dropLast
-                let prevWhite := last0.pw
+              -- left operand (tokens, result list without it, prev_white); `pm`: the previous `##` gave a placemarker
+              let leftE : Except Err (List Tok × List (Tok × Bool) × Bool) :=
+                if pm then .ok ([], res, pmw)
+                else
+                  match res.getLast? with
+                  | none => .error .index
+                  | some (last0, _) =>
+                    if !lastCat then
+                      match argOf last0 with
+                      | some i => match inputArgs[i]? with | some a => .ok (a.raw, res.dropLast, last0.pw) | none => .error .index
+                      | none => .ok ([last0], res.dropLast, last0.pw)
+                    else .ok ([last0], res.dropLast, last0.pw)
+              match leftE with
+              | .error e => .error e
+              | .ok (last, res0, prevWhite) =>
                 match rest' with
                 | [] => .error .index
                 | nexttok0 :: rest'' =>
-                  let lastE : Except Err (List Tok) :=
-                    if !lastCat then
-                      match argOf last0.text with
-                      | some i => match inputArgs[i]? with | some a => .ok a.raw | none => .error .index
-                      | none => .ok [last0]
-                    else .ok [last0]
                   let nextE : Except Err (List Tok) :=
-                    match argOf nexttok0.text with
+                    match argOf nexttok0 with
                     | some i => match inputArgs[i]? with | some a => .ok a.raw | none => .error .index
                     | none => .ok [nexttok0]
-                  match lastE, nextE with
-                  | .error e, _ => .error e
-                  | _, .error e => .error e
-                  | .ok last, .ok next =>
-                    match last.getLast? with
-                    | some ll =>
-                      match next with
-                      | [] => .error .index
-                      | nf :: nrest =>
+                  match nextE with
+                  | .error e => .error e
+                  | .ok next =>
+                    let toaddE : Except Err (List Tok) :=
+                      match last.getLast?, next with
+                      | some ll, nf :: nrest =>
                         match tokenizeOne (ll.text ++ nf.text).toList false with
                         | none => .error (.parse "Invalid concatenation")
-                        | some (t, _) =>
-                          let toadd := last.dropLast ++ [{ t with pw := ll.pw }] ++ nrest
-                          let toadd := match toadd with
-                            | f :: r => { f with pw := prevWhite } :: r
-                            | [] => []
-                          go fuel rest'' (res0 ++ toadd) true
-                    | none => go fuel rest'' (res0 ++ next) true
+                        | some (t, _) => .ok (last.dropLast ++ [{ t with pw := ll.pw }] ++ nrest)
+                      | _, _ => .ok (last ++ next)
+                    match toaddE with
+                    | .error e => .error e
+                    | .ok toadd =>
+                      let toadd' := match toadd with
+                        | f :: r => { f with pw := prevWhite } :: r
+                        | [] => []
+                      go fuel rest'' (res0 ++ toadd'.map (·, true)) true toadd.isEmpty prevWhite
             else if tok.text == "#" then
               match rest' with
               | [] => .error (.parse "# at end")
               | nexttok :: rest'' =>
-                match argOf nexttok.text with
+                match argOf nexttok with
                 | none => .error (.parse "# not followed by argument")
                 | some i =>
                   match inputArgs[i]? with
@@ -190,14 +195,14 @@ def Macro.replaceFn (m : Macro) (inputArgs : List Arg) : Except Err (List Tok) :
                   | some a =>
                     match stringify a.raw with
                     | none => .error .type_
-                    | some t => go fuel rest'' (res ++ [t]) true
-            else go fuel rest' (res ++ [tok]) false
-      go (m.replacement.length + 1) m.replacement [] false
-    else .ok m.replacement)
-  -- substitute arguments
+                    | some t => go fuel rest'' (res ++ [(t, true)]) true false pmw
+            else go fuel rest' (res ++ [(tok, false)]) false false pmw
+      go (m.replacement.length + 1) m.replacement [] false false false
+    else .ok (m.replacement.map (·, false)))
+  -- substitute arguments (tokens that `#`/`##` produced from the arguments are copied)
   let mut out : List Tok := []
-  for token in resTokens do
-    match argOf token.text with
+  for (token, isArg) in resTokens do
+    match (if isArg then none else argOf token) with
     | some i =>
       match inputArgs[i]? with
       | none => throw .index
